@@ -287,6 +287,11 @@ def execField (B : Build) (fld op : String) (args : List String) : String :=
         | some l => if l.length != F.nl then "bad-op" else
             match F.fromBigint l modLimbs with | some x => "some " ++ out x | none => "none"
         | none => "bad-op"
+    | "from_mont", [ls] => match parseLimbs ls with
+        | some l => if l.length != F.nl then "bad-op" else
+            -- in-range Montgomery limbs denote M·R⁻¹ mod p; out-of-range limbs are outside every property
+            if Lit.ofLimbs 64 l < F.m then out (F.fromMont (Lit.ofLimbs 64 l)) else "out-of-range"
+        | none => "bad-op"
     | "into_bigint", [a] => match fe a with
         | some x => String.intercalate "," ((F.toLeLimbs x).map toString) | none => "bad-op"
     | "ser_flags", [k, fl, a] => match fe a, k.toNat?, fl.toNat? with
